@@ -21,6 +21,10 @@ def run(ctx):
         ctx.notes.append("propagation traits differ from the values the origin theorem assumes: " + hdr[0])
         ctx.coverage["traits_mismatch"] = hdr[0]
     common.run_sweep(ctx, "C10", "subj_container", cfgs, ["1" if ctx.thorough else "0", ctx.seed], ["ns ", "ct ", "cteq "], subject="container")
+    # user-specialised propagation_traits (swap travels, move / copy assignment do not): the origin oracle and the protocol model
+    # follow whatever propagation_traits<LedgerAlloc> says (the header line carries the values)
+    for pv in ("subj_container_pv1", "subj_container_pv2"):
+        common.run_sweep(ctx, "C10", pv, ["rwdi"], ["0", ctx.seed], ["ct ", "cteq "], subject="container-" + pv[-3:])
     if ctx.thorough:
         # every element size 1..128 x every alignment dividing it (248 types) x 11 containers
         import buildlib
@@ -53,4 +57,5 @@ def run(ctx):
                             "containers whose allocators compare equal; per operation the allocator each slot references is compared with the "
                             "protocol model, contents with std::allocator twins; a ledger checks at every release that the block goes to the "
                             "allocator object that handed it out, with the size/kind/alignment it was obtained with; equality of std_allocators "
-                            "(same object / different objects / type-erased)")
+                            "(same object / different objects / type-erased); the same with two user-specialised propagation policies "
+                            "(swap propagates, move resp. copy assignment does not)")
